@@ -44,7 +44,10 @@ def eval_call(interp, node, env):
                 out.append(ops.truth(interp, interp.eval(lam.body, e2)))
             return ops.conj(out)
         if name == "implies":
-            a, b = [ops.truth(interp, interp.eval(x, env)) for x in node.args]
+            a = ops.truth(interp, interp.eval(node.args[0], env))
+            if a is False:
+                return True
+            b = ops.truth(interp, interp.eval(node.args[1], env))
             return ops.implies(a, b)
         if name == "iff":
             a, b = [ops.truth(interp, interp.eval(x, env)) for x in node.args]
@@ -605,6 +608,12 @@ class CallMixin(object):
             return d
         if name == "enumerate":
             x = args[0]
+            if self.externals is not None:
+                for plug in self.externals.plugins:
+                    hook = getattr(plug, "enumerate_hook", None)
+                    r = hook(self, x) if hook else None
+                    if r is not None:
+                        return r
             if isinstance(x, (SymSeq, GenVal)):
                 seq = x.seq if isinstance(x, GenVal) else x
                 return SymSeq(seq.length, lambda k, s=seq: (k, s.at(k)), "enumerate")
